@@ -70,7 +70,10 @@ def load(data):
     return read_sunvox_file(BytesIO(data))
 
 
-unknown_id = st.text(alphabet=UNKNOWN_ALPHABET, min_size=4, max_size=4).filter(lambda s: s.encode() not in refcodec.KNOWN_IDS)
+# ... and four-letter words that mean something to a program (a reader that dispatches on the chunk id by name
+# must not find a method, attribute or keyword of its own under such an id)
+WORD_IDS = ["init", "end_", "chun", "data", "name", "file", "self", "read", "next", "done", "last", "obje", "____", "None", "call", "dict", "clas", "seek", "tell", "size", "type", "head", "body", "load", "save", "INIT", "Data", "EOF_", "exit", "main"]
+unknown_id = st.one_of(st.text(alphabet=UNKNOWN_ALPHABET, min_size=4, max_size=4), st.sampled_from(WORD_IDS)).filter(lambda s: s.encode() not in refcodec.KNOWN_IDS)
 unknown_chunk = st.tuples(st.floats(0, 1), unknown_id, st.binary(max_size=40).map(lambda b: b.hex())).map(list)
 
 
